@@ -10,13 +10,6 @@ for tool in ("clang", "java", "ar", "timeout"):
     if not shutil.which(tool):
         print("missing tool:", tool)
         bad = 1
-for d in sorted(glob.glob(os.path.join(sut.VERIF, "specs", "*"))):
-    for f in sorted(glob.glob(os.path.join(d, "*.tla"))):
-        ok, out = tlc.sany(os.path.basename(f), d)
-        if not ok:
-            print("SANY failed on", f)
-            print(out[-1500:])
-            bad = 1
 try:
     d, info = sut.build_lib("asan")
     print("SUT built:", d, info)
